@@ -69,7 +69,9 @@ class C17(FsProp):
                                 "present": ["announce", "comment"] if k % 2 else [], "clauses": cl,
                                 # every third request: the metafile lives on another filesystem than the
                                 # system temp directory (a rename from there is impossible)
-                                "other_fs": k % 3 == 0})
+                                "other_fs": k % 3 == 0,
+                                # the metafile need not be called *.torrent
+                                "meta_name": ("m.torrent", "fetched.tmp", "noext", "x.y.torrent", "m.torrent.tmp")[k % 5]})
         return out
 
     def corruptions(self, recs):
@@ -109,6 +111,7 @@ class C17(FsProp):
 
     def sample(self, case, rec):
         return {"version": case["version"], "entry": case["entry"], "req": case["req"],
+                "meta_name": case.get("meta_name"), "other_fs": case.get("other_fs"),
                 "reference_ops": [(o["kind"], o["p"]) for o in rec["ops"]] if rec else None}
 
     def extra_coverage(self, tier, cases, recs):
